@@ -768,17 +768,18 @@ theorem LInv_new (chain : List TCfg) (now : Int) (hsafe : ∀ t ∈ chain, Safe 
     simp only [Link.new, List.mem_map] at hs
     obtain ⟨t, ht, rfl⟩ := hs
     have hsf := hsafe t ht
-    refine ⟨by simpa [eff, Stage.start] using hsf, ?_, ?_, by simp [Stage.start], by simp [Stage.start]⟩
-    · simpa [eff, Stage.start] using start_wf t.cfg t.active now
+    rw [Stage.fresh_start]
+    refine ⟨by simpa [eff, Stage.fresh] using hsf, ?_, ?_, by simp [Stage.fresh], by simp [Stage.fresh]⟩
+    · simpa [eff, Stage.fresh] using start_wf t.cfg t.active now
     · -- a data-preserving toxic starts at `idle`
-      simp only [Stage.start, Toxi.Toxic.start]
+      simp only [Toxi.Toxic.start]
       cases ha : t.active
       · simp [Quiet]
       · cases hc : t.cfg <;> simp [Quiet]
         rw [ha, hc] at hsf
         simp [effective, Safe] at hsf
   · simp only [Link.new, Link.inflight, Option.getD_none, Option.map_none, List.nil_append, List.append_nil]
-    suffices h : ∀ ss : List TCfg, chainBytes (ss.map fun t => ({ t := t } : Stage).start t now) = [] by
+    suffices h : ∀ ss : List TCfg, chainBytes (ss.map fun t => (Stage.fresh t).start t now) = [] by
       rw [h]
     intro ss
     induction ss with
@@ -792,7 +793,8 @@ theorem LInv_new (chain : List TCfg) (now : Int) (hsafe : ∀ t ∈ chain, Safe 
         · cases t.cfg <;> try rfl
           simp only [Bool.not_true, Bool.false_eq_true, if_false]
           split <;> rfl
-      simp [Stage.bytes, Stage.start, hh]
+      simp only [Stage.fresh_start]
+      simp [Stage.bytes, Stage.fresh, hh]
 
 end Toxi.Link
 
